@@ -224,9 +224,22 @@ func TestReplay(t *testing.T) { vk.RunReplay(t, reg) }
 
 // texts whose part counts differ between codings
 func drawContent(t *rapid.T, proto string) string {
-	switch rapid.IntRange(0, 9).Draw(t, "contentclass") {
+	switch rapid.IntRange(0, 11).Draw(t, "contentclass") {
 	case 0:
 		return ""
+	case 10, 11:
+		// messages as applications send them; runs of GSM-7 extension characters make the part counts of the
+		// 7-bit and the 16-bit codings tie beyond 70 characters (the documented priority then decides)
+		if rapid.Bool().Draw(t, "extrun") {
+			pair := rapid.SampledFrom([]string{"[]", "{}", "^~", "|\\", "€"}).Draw(t, "extpair")
+			n := rapid.SampledFrom([]int{36, 40, 45, 67, 77, 80, 81, 100}).Draw(t, "extn")
+			s := ""
+			for i := 0; i < n; i++ {
+				s += pair
+			}
+			return s
+		}
+		return splitk.CorpusText(t)
 	case 1, 2, 3:
 		// pure GSM-7/ASCII text of a drawn size: 70 UCS-2 characters vs 160 septets vs 140 octets
 		k := ref.KGSMUnpacked
